@@ -6,7 +6,10 @@
  2. the runner builds Props.C24 (class theorems) and Gen.LoopSkel (generated obligations) and audits the axioms.
  3. run: (a) compare the classification with harness/loop_baseline.json: a loop that moved from a proved class to
     tol/unknown is a broken obligation -> dynamic search on the entry points that reach it;
-    (b) dynamic confirmation of the open loops: term_dynamic.py grids under a sys.settrace step budget.
+    (b) dynamic confirmation of the open loops: term_dynamic.py grids under a sys.settrace step budget;
+    (c) adaptive confirmation (term_adaptive.py): for every open loop site the thresholds of the functions that contain or
+        guard the loop are read with `ast`, arguments are placed on both sides of every threshold for several precisions,
+        every call runs under a CPU-time budget scaled by the cost of its neighbouring placements; per-site coverage.
 """
 import os, sys, json, random
 
@@ -17,6 +20,7 @@ sys.path.insert(0, HERE)
 
 from common import REPO, LEAN_DIR, InfraError
 import term_dynamic
+import term_adaptive
 
 LEVEL = "proof"
 LEAN_MODULES = ["Props.C24", "Gen.LoopSkel"]
@@ -34,8 +38,13 @@ ASSUMPTIONS = [
     "Loops inside callbacks supplied by the user and in C extensions (gmpy) are outside the model; MPMATH_NOGMPY=1.",
     "Dynamic part: a step budget (sys.settrace line events in mpmath frames) decides 'does not return'; precisions <= 4000 bits, "
     "|arguments| <= 1e6; a wall-clock timeout is 'no result'.",
+    "Adaptive part: 'does not return' = no result within 4 x max(5 s, 50 x median CPU time of the neighbouring placements around the same "
+    "threshold) (two runs in fresh processes: 1x, then 4x) while at least 2 of those neighbours returned and a loop of an open class is on the stack at the cut-off; a call that is "
+    "slow together with its neighbours is listed as undecided (slow region), not as a failing input. The signatures of the public entry "
+    "points (term_adaptive.ENTRY) and the fixed driving calls of the sites no threshold-driven call reaches (term_adaptive.REACH) are "
+    "hand-written; the thresholds and the sites are read from the working tree.",
 ]
-TRUSTED_EXTRA = ["tools/loop_extract.py (Python ast based classifier)"]
+TRUSTED_EXTRA = ["tools/loop_extract.py (Python ast based classifier)", "harness/term_adaptive.py (ast threshold reader, placement, budgets)"]
 
 _state = {}
 
@@ -98,14 +107,43 @@ def run(ctx):
         try:
             rp = json.load(open(ctx.replay))
             fi = rp.get("failing_input", {}).get("input")
-            if fi and "fn" in fi:
+            if fi and fi.get("adaptive"):
+                _state["replay_adaptive"] = fi
+            elif fi and "fn" in fi:
                 c = term_dynamic.C(fi["fn"], fi.get("args", []), fi.get("prec", 53), fi.get("kwargs"), fi.get("ctx", "mp"), fi.get("post"))
                 c["id"] = len(cases)
                 cases.append(c)
         except Exception:
             pass
-    dyn = term_dynamic.search(cases, ctx.tier)
+    # (b) and (c) run side by side: (b) counts traced lines, (c) counts CPU seconds — neither verdict depends on wall-clock time
+    import threading
+    box = {}
+
+    def _run_b():
+        try:
+            box["dyn"] = term_dynamic.search(cases, ctx.tier)
+        except BaseException as e:      # re-raised in the main thread
+            box["err"] = e
+    tb = threading.Thread(target=_run_b)
+    tb.start()
+
+    # ---- (c) adaptive confirmation: thresholds of the guarding functions, both sides, several precisions -----------------
+    arng = random.Random(ctx.seed * 7919 + 17)
+    acases, aplan, ahist = term_adaptive.build_cases(ctx.tier, arng, sites=[s for s in open_sites if s.get("line")])
+    fi = _state.pop("replay_adaptive", None)
+    if fi:
+        c = {k: fi[k] for k in ("fn", "args", "kwargs", "prec", "argprec", "ctx") if k in fi}
+        c.update(id=len(acases), tag="replay", rank=0, thr="", group=c["fn"], nbh=fi.get("neighbourhood", "replay"))
+        acases.append(c)
+    try:
+        ad = term_adaptive.search(acases, ctx.tier, arng)
+    finally:
+        tb.join()
+    if "err" in box:
+        raise box["err"]
+    dyn = box["dyn"]
     res["failing_inputs"] += dyn["failing"]
+    res["failing_inputs"] += ad["failing"]
     if regress and not dyn["failing"]:
         pass        # runner prints no-failing-input-found for the broken obligations
     st = {}
@@ -120,6 +158,10 @@ def run(ctx):
         precs[b] = precs.get(b, 0) + 1
     open_keys = {s["key"] for s in open_sites}
     executed = {k: v for k, v in dyn["executed_open_loops"].items() if k in open_keys}
+    for k, v in ad["executed_open_loops"].items():
+        if k in open_keys and v:
+            executed[k] = max(executed.get(k, 0), v)
+    executed = {k: v for k, v in executed.items() if v}
     nontrivial = sum(1 for c in cases if any((dyn["r1"].get(c["id"], {}).get("open_loop_iterations") or {}).values()))
     exc_kinds = {}
     for r in dyn["r1"].values():
@@ -128,16 +170,35 @@ def run(ctx):
     # undocumented exception classes are reported as disagreements (the property allows ValueError, ZeroDivisionError,
     # NoConvergence, NotImplementedError; TypeError/ComplexResult/OverflowError are listed but not failed here)
     cov = res["coverage"]
-    cov["evaluations"] = len(cases) + dyn["candidates"]
-    cov["distinct_nontrivial"] = nontrivial
-    cov["rule"] = ("grid cases per public function (term_dynamic.grids; quick = seeded subsample); a case is non-trivial when it "
-                   "executes at least one iteration of a loop of an OPEN class (tol/unknown), measured by the tracer")
-    cov["samples"] = [term_dynamic.strip(c) for c in cases[:3]] + [term_dynamic.strip(c) for c in cases[-2:]]
+    a_nontrivial = sum(1 for c in acases if any((ad["r1"].get(c["id"], {}).get("open_loop_iterations") or {}).values()))
+    cov["evaluations"] = len(cases) + dyn["candidates"] + len(acases) + ad["rerun"] + ad["confirmed"]
+    cov["distinct_nontrivial"] = nontrivial + a_nontrivial
+    cov["rule"] = ("grid cases per public function (term_dynamic.grids; quick = seeded subsample) + adaptive placements around the "
+                   "thresholds of the guarding functions (term_adaptive); a case is non-trivial when it executes at least one "
+                   "iteration of a loop of an OPEN class (tol/unknown), measured by the tracer")
+    cov["samples"] = [term_dynamic.strip(c) for c in cases[:3]] + [term_dynamic.strip(c) for c in cases[-2:]] + \
+        [dict(term_adaptive.strip(c), placed_at=c.get("tag")) for c in acases[:400:97]]
     cov["loops_total"] = len(sites)
     cov["loops_per_class"] = summ
     cov["open_loops"] = len(open_sites)
     cov["open_loops_executed_dynamically"] = len(executed)
-    cov["open_loops_not_reached"] = sorted(open_keys - set(executed))[:200]
+    name_of = {s["key"]: term_adaptive.site_name(s) for s in open_sites if s.get("line")}
+    cov["open_loops_not_reached"] = sorted(name_of.get(k, k) for k in open_keys - set(executed))[:200]
+    cov["open_loop_reached_by"] = {name_of.get(k, k): v for k, v in sorted(ad["reached_by"].items()) if k in open_keys}
+    ast_ = {}
+    for r in ad["r1"].values():
+        ast_[r["status"]] = ast_.get(r["status"], 0) + 1
+    cov["adaptive"] = {
+        "cases": len(acases), "nontrivial": a_nontrivial, "phase1_status": ast_, "not_returned_in_phase1": ad["candidates"],
+        "rerun_with_scaled_budget": ad["rerun"], "escalated_confirmation_runs": ad["confirmed"], "undecided": len(ad["undecided"]), "undecided_list": ad["undecided"][:25],
+        "slow_but_returning": ad["slow"][:20], "wall_s": round(ad["wall"], 1), "per_entry_point": ahist,
+        "precisions": list(term_adaptive.TIERS[ctx.tier]["precs"]),
+        "sites_without_threshold_driven_entry": sorted(v["site"] for v in aplan.values() if not v["entries"]),
+        "plan_samples": {k: aplan[k] for k in sorted(aplan) if k in ("libmp/libhyper.py::ei_asymptotic#0", "libmp/gammazeta.py::complex_stirling_series#0",
+                                                                    "libmp/libhyper.py::mpf_expint#0")},
+        "rule": "arguments on both sides of every threshold (ast) of the functions containing / guarding each open loop, value scale and "
+                "magnitude scale, for several precisions; CPU-time budget max(5 s, 50 x median of the neighbouring placements)",
+    }
     cov["open_loop_list"] = ["%s:%d %s [%s] entry=%s" % (s["file"], s["line"], s["func"], s["cls"], ",".join(s.get("entry_points", [])[:4]))
                              for s in open_sites]
     cov["generated_obligations"] = len(proved_sites)
